@@ -139,7 +139,7 @@ def generate(ctx: Ctx, rep: Report) -> list:
     else:
         jobs = [("core", "SimulatorProto_thorough.cfg", {},
                  "exhaustive core (<= 1 prefix call of 4, <= 2 steps, durations 1..3, <= 2 grid points)"),
-                ("rich", "SimulatorProto_sim.cfg", dict(simulate="num=2500", depth=18, seed=ctx.seed, workers=8),
+                ("rich", "SimulatorProto_sim.cfg", dict(simulate="num=1500", depth=18, seed=ctx.seed, workers=8),
                  "seeded -simulate rich family (<= 2 prefix calls, <= 3 steps, <= 4 grid points)")]
 
     def go(job):
@@ -208,15 +208,15 @@ def run(ctx: Ctx) -> int:
             worst = max(worst, stats.get("worst", 0.0))
             nvals += stats.get("n", 0)
     rep.notes["values_compared_with_closed_form"] = nvals
-    c04.rendering_notes(rep, outs)
     rep.notes["worst_error_over_tolerance"] = round(worst, 4)
     rep.notes["fragile_rows_judged_at_integrator_atol(|x|<1e-1)"] = sum(st.get("fragile", 0) for _, st in outs)
+    c04.rendering_notes(rep, outs)
     for h in hs[:: max(1, len(hs) // 3)][:3]:
         rep.sample({"calls": [s["op"] for s in h], "refused": [s["raised"] for s in h],
                     "predicted_index_ticks": [[q["o"] if q["b"] == 0 else f"tau{q['b']}+{q['o']}" for q in g["times"]]
                                               for g in h[-1]["st"]["segs"]],
                     "predicted_parameters": [g["p"] for g in h[-1]["st"]["segs"]]})
-    c04.trace_direction(ctx, rep, PROP, 500 if ctx.quick else 10000, 6 if ctx.quick else 8, WEIGHTS, "protocols")
+    c04.trace_direction(ctx, rep, PROP, 500 if ctx.quick else 6000, 6 if ctx.quick else 8, WEIGHTS, "protocols")
     c04.repo_tests_direction(ctx, rep, only_protocols=True)
     return rep.finish()
 
